@@ -211,6 +211,10 @@ def main() -> int:
                 for c2 in (('bin', 'and', ctx, ('bin', '<', ('fa', ('var', 'PROBE'), 'y'), L(2))), ('not', ctx),
                            ('q', 'forall', 'QW', ('f', 'ws'), ('bin', 'or', ('bin', '>', ('var', 'QW'), L(0)), ctx)) if 'QW' not in str(ctx) else ('not', ('not', ctx))):
                     items.append((c2, 'event'))
+                    if ck.tier == 'thorough':
+                        # second-level wrappers: the reference two further levels down, next to a second probe reference
+                        items.append((('bin', 'iff', ('f', 'q'), ('bin', 'implies', c2, ('bin', '=', ('idx', ('f', 'ys'), ('fa', ('var', 'PROBE'), 'i')), L(0)))), 'event'))
+                        items.append((('not', ('bin', 'or', ('not', c2), ('bin', 'in', ('fa', ('var', 'PROBE'), 'x'), ('set', L(1), ('f', 'y'))))), 'event'))
     t0 = time.time()
     results = [x for c in par.pmap_chunks(worker, items, 6) for x in c]
     paths = skipped = 0
@@ -227,7 +231,7 @@ def main() -> int:
     ck.sample({'tree_template': gen.render(subst(items[len(items) // 2][0], {'N1': 'n', 'QV': 'v', 'QW': 'w'})), 'symbolic_names': ['n', 'v', 'w', 'probe', 'alias']})
     ck.engine('SP', trees=len(items), paths=paths, paths_where_names_make_the_tree_invalid=skipped, wall_s=round(time.time() - t0, 1))
     ck.bound('trees', f'{len(items)} templates: 9 leaf forms (alias field, alias array element, own field, literal, index expression, nested message field, alias chain with an own-field index and a trailing field, own chain with an alias index, depth-5 mixed chain) x 27 (node kind x child slot) contexts'
-             + ' x 4 (bare + 3 wrappers)' + ', each at expression, predicate, event and event-disjunction level')
+             + (' x 4 (bare + 3 wrappers)' if ck.tier == 'quick' else ' x 10 (bare + 3 wrappers + 6 second-level wrappers)') + ', each at expression, predicate, event and event-disjunction level')
     ck.bound('names', 'variable / quantifier / probe / event-alias names symbolic: every equality pattern between them')
     ck.coverage['evaluations'] = paths
     ck.coverage['distinct_nontrivial'] = len(items)
